@@ -5,13 +5,16 @@ from . import core, pipe
 from .core import Scratch, ToolError, Verdict, log
 
 
-def run_shared(prop, invs, tier, seed, level_note):
+def run_shared(prop, invs, tier, seed, level_note, with_d=False):
     v = Verdict(prop, tier, seed)
     core.build(harness=False)
     scs, gen = pipe.generate(tier)
-    scs_d, gen_d = pipe.generate(tier, "Pipeline_genD.cfg")
-    scs_d = [s for s in scs_d if any(r["fault"] == "D" for r in s["roots"])]
-    sel = pipe.select(scs, tier, seed) + pipe.select(scs_d, tier, seed, n_quick=60)
+    sel = pipe.select(scs, tier, seed)
+    if with_d:
+        # the swallowed-parse-error kind (known finding) is explored for C05 only
+        scs_d, gen_d = pipe.generate(tier, "Pipeline_genD.cfg")
+        scs_d = [s for s in scs_d if any(r["fault"] == "D" for r in s["roots"])]
+        sel = sel + pipe.select(scs_d, tier, seed, n_quick=60)
     obs = pipe.run_scenarios(sel, trace=True)
     mismatched = 0
     distinct = set()
@@ -73,4 +76,5 @@ def ptrace_key(inv, ob):
 def run(tier, seed, replay=None):
     return run_shared("C05", pipe.C05_INVS, tier, seed,
                       "file contents classified by byte equality with hand-written expected "
-                      "texts; diagnostics detected by the root's directory name on stderr")
+                      "texts; diagnostics detected by the root's directory name on stderr",
+                      with_d=True)
